@@ -28,7 +28,7 @@ generator: a rejected twin is a tool error, never a violation).
 """
 import json
 
-from lib import common, holes, render, typeflow
+from lib import clicontract, common, holes, render, typeflow
 from lib.common import ToolError
 
 
@@ -299,6 +299,17 @@ def run(ctx):
     n += hstats["judged"]
     for r in hrows:
         distinct.add(("hole", r["off"], r["stmt"], r["inner"], r["depth"]))
+    # ---------------------------------------------------------------- the same verdicts at the command line (spec/Cli.tla, CliTrace)
+    cli_src = []
+    for k in rnd.sample(range(len(meta)), min(len(meta), 8 if ctx.quick else 80)):
+        cli_src += [(f"mutant:{meta[k][0]}", meta[k][2]), (f"twin:{meta[k][0]}", meta[k][4])]
+    for r, site in rnd.sample(flows, min(len(flows), 10 if ctx.quick else 100)):
+        cli_src.append((f"flow:{site}", typeflow.program(r, site)[0]))
+    for r in rnd.sample(hrows, min(len(hrows), 10 if ctx.quick else 100)):
+        cli_src.append((f"hole:{r['off']}", holes.program(r)[0]))
+    with ctx.timed("cli"):
+        ctx.stats["cli"] = clicontract.run_sessions(ctx, cli_src, "c03", modes=("check", "emit"))
+    n += ctx.stats["cli"].get("invocations", 0)
     ctx.sample({"typeflow_case": typeflow.program(flows[len(flows) // 3][0], flows[len(flows) // 3][1])[0][-300:],
                 "accept": flows[len(flows) // 3][0]["accept"]})
     ctx.sample({"mutant": meta[3][2], "offender_span": meta[3][3]})
